@@ -453,6 +453,82 @@ def r4(k: Kit) -> None:
             'KEXINIT is parsed before the in-progress test', pk.loc(pk.node))
 
 
+def r7(k: Kit) -> None:
+    """Each exchange validates the key presented in that exchange."""
+    from ..flow import depends_on
+    rep = k.rep
+    rep.rule('C11.R7', 'SSHClientConnection.validate_server_host_key: every '
+             'returned key is derived (reaching definitions) from the '
+             'key_data of this call through _validate_host_key - a '
+             're-exchange that negotiates another host key algorithm is '
+             'verified with the key it presents, not one remembered from an '
+             'earlier exchange')
+    fi = k.func('connection.SSHClientConnection.validate_server_host_key')
+    g = k.cfg(fi)
+    rd = k.rd(fi)
+    vals = [n.id for n, c in k.calls_named(fi, '_validate_host_key', 'self')
+            if any('key_data' in names_read(a) for a in c.args)]
+    rets = [n for n in g.nodes if isinstance(n.ast, ast.Return)]
+    rep.floor('C11.R7', 'returns of validate_server_host_key', len(rets), 1)
+    for r in rets:
+        deps = depends_on(g, rd, r.id, r.ast.value) if r.ast.value else set()
+        w = g.must_pass(vals, dst=r.id)
+        rep.check('key_data' in deps and w is None, 'C11.R7',
+                  key(fi, 'returned key comes from this exchange'),
+                  'return value depends on key_data and every path to it '
+                  'passes _validate_host_key(..., key_data)',
+                  f'`{norm(r.ast)}` does not depend on the key data presented '
+                  'in this exchange (or skips its validation): after a '
+                  're-exchange with a different host key the signature over '
+                  'H is checked with the old key, the exchange fails and the '
+                  'session with all in-flight data is lost',
+                  k.loc(fi, r), g.describe_path(w) if w else None)
+
+
+def r8(k: Kit) -> None:
+    """Our own KEXINIT is not charged to the new keys' byte budget."""
+    rep = k.rep
+    rep.rule('C11.R8', '_send_kexinit clears _kex_complete before it sends '
+             'MSG_KEXINIT: send_packet charges _rekey_bytes_sent only while '
+             '_kex_complete, so the KEXINIT is not counted against the limit '
+             'it has just reset (a limit below one KEXINIT would otherwise '
+             're-exchange forever and never release the deferred packets)')
+    fi = k.func('connection.SSHConnection._send_kexinit')
+    g = k.cfg(fi)
+    clears = [n.id for n, v in k.stores_to(fi, 'self._kex_complete')
+              if isinstance(v, ast.Constant) and v.value is False]
+    sends = [n for n, c in k.calls_named(fi, 'send_packet', 'self')
+             if c.args and dotted(c.args[0]) == 'MSG_KEXINIT']
+    rep.floor('C11.R8', 'KEXINIT send', len(sends), 1)
+    for s_ in sends:
+        w = g.must_pass(clears, dst=s_.id)
+        rep.check(bool(clears) and w is None, 'C11.R8',
+                  key(fi, 'flag cleared before KEXINIT is sent'),
+                  'every path to the send passes _kex_complete = False',
+                  'KEXINIT is sent while _kex_complete is still True: its '
+                  'length is charged to _rekey_bytes_sent right after the '
+                  'counter was reset; with rekey_bytes not larger than one '
+                  'KEXINIT every exchange triggers the next and deferred '
+                  'application packets are never sent', k.loc(fi, s_),
+                  g.describe_path(w) if w else None)
+    sp = k.func('connection.SSHConnection.send_packet')
+    g2 = k.cfg(sp)
+    n = 0
+    for nd in g2.nodes:
+        if isinstance(nd.ast, ast.AugAssign) and \
+                dotted(nd.ast.target) == 'self._rekey_bytes_sent':
+            n += 1
+            w = g2.guarded_by(nd.id, atom_truthy_of('self._kex_complete'))
+            rep.check(w is None, 'C11.R8',
+                      key(sp, 'only completed-exchange traffic is counted'),
+                      'the byte counter is charged under `if '
+                      'self._kex_complete`',
+                      'key exchange packets are charged to the rekey byte '
+                      'counter', k.loc(sp, nd),
+                      g2.describe_path(w) if w else None)
+    rep.floor('C11.R8', 'byte counter charge', n, 1)
+
+
 def run(idx, rep, tier):
     k = Kit(idx, rep)
     rep.assumptions += NOT_DECIDED
@@ -463,6 +539,8 @@ def run(idx, rep, tier):
     r2(k)
     r3(k)
     r4(k)
+    r7(k)
+    r8(k)
     # R5: the keys taken into use after a re-exchange are the RFC 4253 §7.2
     # keys: = C02.R2 (compute_key hashes K, H, letter, session id in that
     # order; on the first exchange H == session id hides a swap)
